@@ -62,9 +62,18 @@ def rel_symlink(base: Path, dir: Path) -> Optional[Path]:
 
     If path points outside base, returns None.
     """
-    # the target of this link itself (not where a chain of further links ends),
-    # seen from the actual location of the link and without .. and . segments
-    target = os.path.normpath(dir.parent.resolve() / os.readlink(str(dir)))
+    # the target of this link itself (not where a chain of further links ends):
+    # the location of the last path segment is resolved like the system does it
+    # (.. after a symlinked directory cannot be eliminated just textually)
+    target = os.path.join(dir.parent.resolve(), os.readlink(str(dir)))
+    head, tail = os.path.split(target.rstrip("/") or "/")
+    if tail in ("", ".", ".."):
+        head, tail = target, ""
+    try:
+        location = os.path.realpath(head, strict=True)
+    except OSError:  # dangling or looping on the way, cannot do better
+        location = os.path.normpath(head)
+    target = os.path.join(location, tail) if tail else location
     try:
         return Path(target).relative_to(base.resolve())
     except ValueError:
